@@ -14,6 +14,15 @@ H = 2 ** 31
 PRV_VERSIONS = {0x0488ADE4, 0x049D7878, 0x04B2430C, 0x04358394, 0x044A4E28, 0x045F18BC}
 
 
+def literal_ops(lit):
+    w = "seedb:%s:%s" % (hx(bytes(range(16, 48))), "01"[lit % 2])
+    if lit < 2 ** 31:
+        yield "paranoia %s %d 0 1" % (w, lit)
+
+
+LITERAL_BUDGET = 16
+
+
 def cases(rng, tier):
     n = 12 if tier == "quick" else 500
     for ln in list(range(0, 9)) + [20]:
